@@ -3,6 +3,7 @@ CONSTANTS
   Progs <- ConfProgs
   NullCheckInDtor = TRUE
   MoveEmpties = TRUE
+  AssignSwaps = FALSE
 INVARIANTS FalseUntilFirstDestroy PollTruth NoCrash
 PROPERTY OneWay
 CHECK_DEADLOCK FALSE
